@@ -52,6 +52,8 @@ REQUIRED = [
     'EdbVerif.C18.pg_eliteral_partial', 'EdbVerif.C18.pg_eliteral_counterexample',
     'EdbVerif.C18.edgeql_dollar_total', 'EdbVerif.C18.edgeql_const_total',
     'EdbVerif.C18.pg_name_length', 'EdbVerif.C18.pg_name_partial', 'EdbVerif.C18.pg_name_counterexample',
+    'EdbVerif.C18.pg_do_block_partial', 'EdbVerif.C18.pg_funcbody_partial', 'EdbVerif.C18.pg_do_block_counterexample',
+    'EdbVerif.C18.edgeql_param_counterexample',
 ]
 
 BIDI = set(range(0x202A, 0x202F)) | set(range(0x2066, 0x206A))
@@ -524,6 +526,102 @@ def statement_stream(R: 'Real', id_pool: list, ptr_pool: list, rng, n: int) -> l
     return out
 
 
+def _needs_bq(x: str) -> bool:
+    """a name that is not a plain ASCII identifier (writing it raw cannot be right)"""
+    return not re.fullmatch(r'[A-Za-z_][A-Za-z0-9_]*', x) or x.lower() in _RESERVED_LOWER
+
+
+_RESERVED_LOWER: set = set()
+
+_RAW_WHAT = ('the visitor writes the name with self.write(node.name) — no quote_ident / ident_to_str — although the '
+             'parser builds the node from an Identifier token (back-quoted names are legal): a name that needs '
+             'back-quotes comes out raw and is read as several tokens (`a b; drop` ends the statement)')
+# template -> (family key, every input fails?, what)
+RAW_NAME_TEMPLATES = {
+    'declare savepoint A': ('codegen-name-written-raw:visit_DeclareSavepoint', False, _RAW_WHAT),
+    'rollback to savepoint A': ('codegen-name-written-raw:visit_RollbackToSavepoint', False, _RAW_WHAT),
+    'release savepoint A': ('codegen-name-written-raw:visit_ReleaseSavepoint', False, _RAW_WHAT),
+    'reset alias A': ('codegen-name-written-raw:visit_SessionResetAliasDecl', False, _RAW_WHAT),
+    'set A := const': ('codegen-name-written-raw:visit_SetField', False, _RAW_WHAT),
+    'reset A': ('codegen-name-written-raw:visit_SetField', False, _RAW_WHAT),
+    'reset schema to A': ('codegen-reset-schema-prints-object-repr:visit_ResetSchema', True,
+                          'visit_ResetSchema formats the ObjectRef NODE into an f-string (and lower-cases it): it prints '
+                          '"reset schema to <edb.edgeql.ast.objectref object at 0x…>" for every target'),
+}
+
+
+def _repr_breaks(x: str) -> bool:
+    return any(0x80 <= ord(c) <= 0xff and not c.isprintable() for c in x)
+
+
+def _dollar_breaks(x: str) -> bool:
+    return any(ord(c) in BIDI for c in x)
+
+
+_REPR_WHAT = ('the visitor writes the string with Python repr() ({…!r}): non-printable U+0080–U+00FF come out as \\xNN, '
+              'which the tokenizer accepts only below 0x80 (same class as the visit_Constant defect repaired by 1c83ec0)')
+_DOLLAR_WHAT = ('the visitor writes the code text with dollar_quote_literal unconditionally; a dollar string has no '
+                'escapes, a bidi control in the text is printed raw and rejected by the tokenizer (quote_literal would do)')
+# template -> (family key, input is in the known-false region?, what)
+LITERAL_TEMPLATES = {
+    'create function using sql function L': ('codegen-repr-literal:visit_CreateFunction', _repr_breaks, _REPR_WHAT),
+    'create operator using sql operator L': ('codegen-repr-literal:visit_CreateOperator', _repr_breaks, _REPR_WHAT),
+    'create operator using sql function L': ('codegen-repr-literal:visit_CreateOperator', _repr_breaks, _REPR_WHAT),
+    'create cast using sql function L': ('codegen-repr-literal:visit_CreateCast', _repr_breaks, _REPR_WHAT),
+    'create function using sql L': ('codegen-dollar-literal-bidi:visit_CreateFunction', _dollar_breaks, _DOLLAR_WHAT),
+    'create cast using sql L': ('codegen-dollar-literal-bidi:visit_CreateCast', _dollar_breaks, _DOLLAR_WHAT),
+}
+
+
+def printer_stream(R: 'Real', id_pool: list, literals: list) -> list:
+    """visitors that write a name or a string on their own (not through visit_ObjectRef / visit_Constant)"""
+    qlast, g = R.qlast, R.qc.generate_source
+    from edb.edgeql import qltypes
+    tn = qlast.TypeName(maintype=qlast.ObjectRef(name='str', module='std'))
+    sq = qltypes.TypeModifier.SingletonType
+    out = []
+
+    def add(tmpl, names, node, exp):
+        out.append((tmpl, names, R.call(g, node), exp))
+    for a in id_pool:
+        add('declare savepoint A', (a,), qlast.DeclareSavepoint(name=a),
+            [('kw', 'declare'), ('kw', 'savepoint'), ('name', a)])
+        add('rollback to savepoint A', (a,), qlast.RollbackToSavepoint(name=a),
+            [('kw', 'rollback'), ('kw', 'to'), ('kw', 'savepoint'), ('name', a)])
+        add('release savepoint A', (a,), qlast.ReleaseSavepoint(name=a),
+            [('kw', 'release'), ('kw', 'savepoint'), ('name', a)])
+        add('reset alias A', (a,), qlast.SessionResetAliasDecl(alias=a), [('kw', 'reset'), ('kw', 'alias'), ('name', a)])
+        add('reset schema to A', (a,), qlast.ResetSchema(target=qlast.ObjectRef(name=a)),
+            [('kw', 'reset'), ('kw', 'schema'), ('kw', 'to'), ('name', a)])
+        if a == a.lower() and a not in ('expr', 'condition', 'target', 'default', 'type', 'annotation'):
+            # (`set type` / `set annotation` are multi-word keywords of the tokenizer: not field names)
+            # (the parser lower-cases SET / RESET field names)
+            add('set A := const', (a,), qlast.SetField(name=a, value=qlast.Constant.integer(1)),
+                [('kw', 'set'), ('name', a), ('p', ':='), ('any', '1')])
+            add('reset A', (a,), qlast.SetField(name=a, value=None), [('kw', 'reset'), ('name', a)])
+
+    def fn(**code):
+        return qlast.CreateFunction(name=qlast.ObjectRef(name='f', module='m'), params=[], returning=tn,
+                                    returning_typemod=sq,
+                                    code=qlast.FunctionCode(language=qlast.Language.SQL, **code))
+
+    def op(**code):
+        return qlast.CreateOperator(name=qlast.ObjectRef(name='+', module='m'), kind=qltypes.OperatorKind.Infix,
+                                    params=[], returning=tn, returning_typemod=sq,
+                                    code=qlast.OperatorCode(language=qlast.Language.SQL, **code))
+
+    def cast(**code):
+        return qlast.CreateCast(from_type=tn, to_type=tn, code=qlast.CastCode(language=qlast.Language.SQL, **code))
+    for lit in literals:
+        add('create function using sql function L', (lit,), fn(from_function=lit), [('literal-only', lit)])
+        add('create function using sql L', (lit,), fn(code=lit), [('literal-only', lit)])
+        add('create operator using sql operator L', (lit,), op(from_operator=(lit,)), [('literal-only', lit)])
+        add('create operator using sql function L', (lit,), op(from_function=(lit,)), [('literal-only', lit)])
+        add('create cast using sql function L', (lit,), cast(from_function=lit), [('literal-only', lit)])
+        add('create cast using sql L', (lit,), cast(code=lit), [('literal-only', lit)])
+    return out
+
+
 def check_statements(ctx, fam, stream: list, id_kind) -> dict:
     texts = [t for (_a, _b, t, _e) in stream if isinstance(t, str) and not t.startswith('!EXC')]
     lexed = dict(zip(texts, safe_lex_many(texts)))
@@ -531,12 +629,14 @@ def check_statements(ctx, fam, stream: list, id_kind) -> dict:
     for (tmpl, names, text, exp) in stream:
         r = lexed.get(text)
         ok = r is not None and r.error is None and len(r.toks) == len(exp) + 1 and r.toks[-1].kind == 'EOI'
-        if ok:
+        if ok and exp[0][0] != 'literal-only':
             for tok, (kind, val) in zip(r.toks, exp):
                 if kind == 'kw':
                     ok = tok.text.lower() == val and (tok.kind.startswith('Keyword') or tok.kind == 'Ident')
                 elif kind == 'p':
                     ok = tok.text == val and tok.vkind == 'none'
+                elif kind == 'any':
+                    ok = tok.text == val
                 elif kind == 'name':
                     ok = tok.vkind == 'str' and tok.value == val.encode() and id_kind(tok.kind)
                 else:   # pointer position: an identifier, or bare digits (tuple element / numeric link name)
@@ -544,7 +644,31 @@ def check_statements(ctx, fam, stream: list, id_kind) -> dict:
                         (tok.vkind == 'str' and tok.value == val.encode() and id_kind(tok.kind))
                 if not ok:
                     break
+        if exp and exp[0][0] == 'literal-only':
+            # the statement must lex, and carry exactly one string token, with this value
+            want = exp[0][1]
+            strs_ = [t for t in (r.toks if r else []) if t.kind == 'Str']
+            ok = r is not None and r.error is None and len(strs_) == 1 and strs_[0].value == want.encode()
         big = [v for (k, v) in exp if k == 'ptr' and re.fullmatch(r'[1-9][0-9]*', v) and int(v) > 2 ** 64 - 1]
+        nonascii_num = [v for (k, v) in exp if k == 'ptr' and re.fullmatch(r'[1-9]\d*', v) and not v.isascii()]
+        if not ok and nonascii_num:
+            fam.add('numeric-name-non-ascii-digits:quote_ident(allow_num)',
+                    'quote_ident(allow_num=True) (pointer position, parameters: ident_to_str / visit_Ptr / param_to_str) '
+                    'matches purely numeric names with the Unicode \\d, the tokenizer reads ASCII digits only: a name '
+                    'like "1\u0662" is left bare and read as the number 1 followed by a stray character',
+                    min(nonascii_num, key=lambda v: (len(v), v)), text,
+                    {'template': tmpl, 'tokenizer_error': r.error if r else None})
+            continue
+        raw = RAW_NAME_TEMPLATES.get(tmpl)
+        if not ok and raw and (raw[1] or any(_needs_bq(x) for x in names)):
+            fam.add(raw[0], raw[2], min(names, key=lambda v: (len(v), v)), text,
+                    {'template': tmpl, 'tokenizer_error': r.error if r else None,
+                     'tokens': [(t.kind, t.text) for t in (r.toks if r else [])][:8]})
+            continue
+        lit = LITERAL_TEMPLATES.get(tmpl)
+        if not ok and lit and lit[1](names[0]):
+            fam.add(lit[0], lit[2], names[0], text, {'template': tmpl, 'tokenizer_error': r.error if r else None})
+            continue
         if not ok and big and r is not None and r.error and 'error reading int' in r.error:
             fam.add('numeric-name-u64-overflow:quote_ident(allow_num)',
                     'quote_ident(allow_num=True) (pointer position: ident_to_str / visit_Ptr / param_to_str) leaves a '
@@ -564,6 +688,135 @@ def check_statements(ctx, fam, stream: list, id_kind) -> dict:
     return {'statements': len(stream), 'failed': n_bad}
 
 
+# ------------------------------------------------------------------ dbops wrappers
+_LINEBREAKS = '\n\r\x0b\x0c\x1c\x1d\x1e\x85  '
+
+
+def dbops_oracle(ctx, R: 'Real', fam: 'Families', labels: list) -> dict:
+    """edb.pgsql.dbops wraps SQL that carries quoted literals into further quoting layers: the `DO … $__$` block
+    of PLTopBlock, the `$____funcbody____$` body of CreateFunction, the '…'-string of SetMetadata's EXECUTE, and it
+    re-indents whole statements.  Oracle (PgLex, trusted spec, in the Lean driver): each layer is read back as
+    ONE constant whose content still holds the inner literal verbatim."""
+    from edb.pgsql import dbops
+    ql, qi = R.pc.quote_literal, R.pc.quote_ident
+    items = []      # (kind, label, text to lex, op, expectation)
+    for lab in labels:
+        lit = ql(lab)
+        for cond in (False, True):
+            b = dbops.PLTopBlock()
+            kw = {'neg_conditions': ['true']} if cond else {}
+            r = R.call(lambda: dbops.CreateEnum(dbops.Enum(name=('edgedbpub', 'x'), values=[lab]), **kw).generate(b))
+            text = R.call(b.to_string) if not (isinstance(r, str) and r.startswith('!EXC')) else r
+            pre = 'DO LANGUAGE plpgsql '
+            if isinstance(text, str) and text.startswith(pre):
+                items.append(('do-cond' if cond else 'do', lab, text[len(pre):], 'PD', (lit, ';', text)))
+        f = dbops.Function(name=('edgedbpub', 'f'), text='SELECT ' + lit, returns='text')
+        code = R.call(dbops.CreateFunction(f).code)
+        if isinstance(code, str) and 'AS $' in code:
+            items.append(('func', lab, code[code.index('AS $') + 3:], 'PD', (lit, '\nLANGUAGE', code)))
+        md = R.call(dbops.SetSingleDBMetadata('db', {'k': lab}).code)
+        if isinstance(md, str) and "json = '" in md:
+            items.append(('marker', lab, md[md.index("json = '") + 7:], 'PS', (json.dumps({'k': lab}), None, md)))
+        if 0 < len(lab.encode()) <= 63:
+            sm = R.call(dbops.SetMetadata(dbops.Database(name=lab), {'k': 'v'}).code)
+            if isinstance(sm, str) and sm.startswith('EXECUTE '):
+                items.append(('comment', lab, sm[len('EXECUTE '):].lstrip(' '), 'PS',
+                              (f'COMMENT ON DATABASE {qi(lab)} IS ', None, sm)))
+    out = ctx.driver('C18', [f'{op} {hx(t)}' for (_k, _l, t, op, _e) in items])
+    n_bad = 0
+    for (kind, lab, text, op, (want, after, full)), mo in zip(items, out):
+        f = mo.split(' ')
+        good = False
+        if f[0] == 'ok':
+            content = unhx(f[1])
+            rest = text[int(f[2]):]
+            if kind in ('comment', 'marker'):
+                good = content == want
+            else:
+                good = want in content and rest.startswith(after)
+        if good:
+            continue
+        tagged = {'do': '$__$', 'do-cond': '$__$', 'func': '$____funcbody____$'}.get(kind)
+        detail = {'layer': kind, 'generated_sql': full, 'pglex': mo[:300]}
+        if tagged and tagged in ql(lab):
+            key = 'dbops-fixed-dollar-tag:' + ('PLTopBlock' if kind != 'func' else 'CreateFunction')
+            fam.add(key, f'dbops wraps the SQL in the FIXED dollar tag {tagged} without checking that the body (which '
+                         f'carries quoted literals: enum labels, annotation values, defaults, function source) does '
+                         f'not contain it: PostgreSQL ends the body at the first occurrence and executes the remainder '
+                         f'as top-level SQL', lab, full, detail)
+        elif kind in ('do-cond', 'func', 'comment') and any(c in lab for c in _LINEBREAKS) and \
+                not (kind == 'comment' and "'" in lab):
+            where = {'do-cond': 'PLBlock', 'func': 'CreateFunction', 'comment': 'SetMetadata'}[kind]
+            fam.add('dbops-textwrap-alters-literal:' + where,
+                    'dbops re-indents whole SQL statements with textwrap (PLBlock.add_command / to_string: indent; '
+                    'CreateFunction.code, SetMetadata.creation_code: dedent, which also blanks whitespace-only lines): a '
+                    'string literal or quoted identifier that spans lines (an enum label with a newline) gets indentation '
+                    'inserted or white space removed INSIDE it — the value changes silently', lab, full, detail)
+        elif kind == 'marker' and re.search(r'(edgedb|edgedbstd|edgedbsql|edgedbinstdata)_VER', lab):
+            fam.add('dbops-marker-substitution-in-literal:fixup_query',
+                    'trampoline.fixup_query replaces the markers edgedb_VER / edgedbstd_VER / edgedbsql_VER / '
+                    'edgedbinstdata_VER textually in the WHOLE statement, including inside quoted literals that carry data '
+                    '(SetSingleDBMetadata json, the extension config spec json in delta.py): a value containing a marker '
+                    'is silently rewritten', lab, full, detail)
+        elif kind == 'comment' and "'" in lab:
+            fam.add('dbops-comment-on-unescaped-quote:SetMetadata',
+                    'SetMetadata / UpdateMetadata splice object.get_id() (a "-quoted identifier) into the \'-quoted string '
+                    '\'COMMENT ON … IS \' without doubling single quotes: a database (branch) or role name with an '
+                    'apostrophe ends the string early (reachable: CREATE BRANCH `it\'s` -> CreateDatabase -> SetMetadata)',
+                    lab, full, detail)
+        else:
+            n_bad += 1
+            if n_bad <= 20:
+                ctx.fail(f'oracle:dbops:{kind}:{lab.encode().hex()}',
+                         'a dbops quoting layer is not read back (PgLex) as one constant holding the inner literal',
+                         {'input_hex': lab.encode().hex(), **detail})
+    return {'checks': len(items), 'failed_outside_known_regions': n_bad}
+
+
+def param_oracle(ctx, R: 'Real', fam: 'Families', names: list) -> dict:
+    """param_to_str(name) -> real tokenizer -> ONE Parameter token with value name, for every name that some
+    parameter form ($name or $`name`) can carry"""
+    outs = [R.call(R.qc.param_to_str, x) for x in names]
+    bare = ['$' + x for x in names]
+    bq = ['$`' + x.replace('`', '``') + '`' for x in names]
+    texts = list(dict.fromkeys([o for o in outs if isinstance(o, str)] + bare + bq))
+    lx = dict(zip(texts, safe_lex_many(texts)))
+
+    def one(t, x):
+        r = lx.get(t)
+        return r is not None and r.error is None and len(r.toks) == 2 and r.toks[0].kind == 'Parameter' and \
+            r.toks[0].value == x.encode() and r.toks[0].end == len(t.encode())
+    n = n_bad = 0
+    for x, o, b, q in zip(names, outs, bare, bq):
+        if not (one(b, x) or one(q, x)):
+            continue
+        n += 1
+        if isinstance(o, str) and one(o, x):
+            continue
+        r = lx.get(o)
+        extra = {'tokenizer_error': r.error if r else None,
+                 'tokens': [(t.kind, t.value.decode('utf-8', 'replace')) for t in (r.toks if r else [])][:4]}
+        odd = [c for c in x if c.isalnum() and not c.isalpha() and c not in '0123456789']
+        if isinstance(o, str) and o == '$' + x and odd and not re.fullmatch(r'[1-9]\d*', x):
+            fam.add('param-name-unicode-numeric:param_to_str',
+                    'param_to_str decides with quote_ident\'s identifier classes (\\w: alphanumeric), but after `$` the '
+                    'tokenizer continues a name only over ASCII digits, `_` and ALPHABETIC characters: a name with a '
+                    'non-ASCII numeric character (superscript two, Arabic-Indic digits, …) is left bare and the parameter '
+                    'ends in front of that character (the back-quoted form $`…` is accepted)', x, o, extra)
+        elif re.fullmatch(r'[1-9]\d*', x) and not x.isascii():
+            fam.add('numeric-name-non-ascii-digits:quote_ident(allow_num)',
+                    'quote_ident(allow_num=True) (pointer position, parameters: ident_to_str / visit_Ptr / param_to_str) '
+                    'matches purely numeric names with the Unicode \\d, the tokenizer reads ASCII digits only: a name '
+                    'like "1٢" is left bare and read as the number 1 followed by a stray character', x, o, extra)
+        else:
+            n_bad += 1
+            if n_bad <= 20:
+                ctx.fail(f'oracle:param_to_str:{x.encode().hex()}',
+                         'param_to_str: the real tokenizer does not read the output back as one parameter token with '
+                         'the original name', {'input_hex': x.encode().hex(), 'real_output': o, **extra})
+    return {'checks': n, 'failed_outside_known_regions': n_bad}
+
+
 class Families:
     """collects oracle failures per known defect family (minimal witness kept)"""
 
@@ -574,7 +827,8 @@ class Families:
         r = self.f.setdefault(key, {'what': what, 'count': 0, 'witness': None})
         r['count'] += 1
         w = r['witness']
-        cand = (len(s), s)
+        plain = isinstance(s, str) and s.isascii() and s.isprintable()
+        cand = (not plain, len(s), s)
         if w is None or cand < r['_best']:
             r['_best'] = cand
             r['witness'] = {'input_hex': (s if isinstance(s, bytes) else s.encode()).hex(),
@@ -629,7 +883,8 @@ def run(ctx: core.Ctx):
         # witnesses of the `_counterexample` theorems, replayed on the real code
         for s in ['x$', '\'"$', '\n\x85', '\'"$$$a', '‮', '²a', '\\', '__x__', '@a', 'a::b', '',
                   '\n ', '\n­', "'\"$$", 'select', '__type__', '__TYPE__', 'a' * 64, 'é' * 32,
-                  "\n'‮", '$$', '名' * 25 + '~1', '名' * 25 + '~2', 'a' * 51, 'a' * 52, '\'"$$$a$b$c$d$e$f$a1', '\'"' + ''.join('$%s$' % c for c in 'abcdef') + '$$']:
+                  "\n'‮", '$$', '名' * 25 + '~1', '名' * 25 + '~2', 'a' * 51, 'a' * 52,
+                  '0', '1', '10', '007', '1٢', '٢1', '18446744073709551615', '18446744073709551616', '9' * 20, '\'"$$$a$b$c$d$e$f$a1', '\'"' + ''.join('$%s$' % c for c in 'abcdef') + '$$']:
             add(s, 'witness')
         nmax = ctx.budget(3, 5)
         for n in range(0, nmax + 1):
@@ -709,7 +964,7 @@ def run(ctx: core.Ctx):
     ctx.log(f'{len(S)} strings, {len(Bs)} byte strings')
 
     # ---- history-dependence oracle, phase 1: before the corpus goes through anything
-    NUMERIC = ['0', '1', '10', '007', '42', '18446744073709551615', '18446744073709551616', '9' * 20, '1_0', '٣']
+    NUMERIC = ['0', '1', '10', '007', '42', '1٢', '٢1', '18446744073709551615', '18446744073709551616', '9' * 20, '1_0', '٣']
     kw_some = sorted(set(R.qlkw.edgeql_keywords))[::9] + sorted(set(R.pgkw.pg_keywords))[::23]
     probe_strings = NUMERIC + ['select', 'SELECT', 'abort', '__type__', 'my name', 'a`b', 'a"b', "a'b", '@x', 'a::b', '',
                                'Ünï', '²a', 'x$', '\'"$', '\\', '\n', '‮', 'a' * 52, '名' * 25 + '~1', '$a$', 'User'] + kw_some
@@ -1144,6 +1399,24 @@ def run(ctx: core.Ctx):
         stream = statement_stream(R, id_pool, ptr_pool, rng, ctx.budget(1500, 20000))
         stmt_cov = check_statements(ctx, fam, stream, id_kind2)
         ctx.log('statement stream:', stmt_cov)
+        # ---- visitors that write names / strings on their own; parameters; dbops layers
+        _RESERVED_LOWER.update(reserved_kw)
+        names_pr = list(dict.fromkeys(['sp1', 'a b', 'a b; drop', 'select', 'Select', 'x-y', '1a', 'näme', 'a`b', 'my field']
+                                      + id_pool[:60]))
+        lits = list(dict.fromkeys(['f', "it's", 'a"b', 'a\\b', '\x85', '\xa0x', 'x­y', '‮', 'a$$b', "'\"$", 'pg_catalog.lower',
+                                   'line1\nline2', '$a$', 'é', '\x7f', '\x01']
+                                  + [x for x in probe_strings if '\x00' not in x and 0 < len(x) <= 30][:ctx.budget(150, 1500)]))
+        pstream = printer_stream(R, names_pr, lits)
+        pr_cov = check_statements(ctx, fam, pstream, id_kind2)
+        ctx.log('printer stream:', pr_cov)
+        par_cov = param_oracle(ctx, R, fam, list(dict.fromkeys(NUMERIC + names_pr + probe_strings)))
+        labels = list(dict.fromkeys(['a', "it's", 'see edgedbstd_VER docs', 'edgedb_VER', '$__$', 'a$__$; DROP TABLE t; --', '$____funcbody____$', 'a\nb', 'a\r\nb',
+                                     '$_', '$__', 'x$____funcbody____', '\\', 'a\u2028b', '$$', 'é']
+                                    + [x for x in probe_strings if '\x00' not in x and len(x.encode()) <= 63][:ctx.budget(200, 2000)]))
+        db_cov = dbops_oracle(ctx, R, fam, labels)
+        ctx.log('param / dbops:', par_cov, db_cov)
+        stmt_cov = {'mixed_positions': stmt_cov, 'name_and_literal_visitors': pr_cov, 'param_to_str': par_cov,
+                    'dbops_layers': db_cov}
     uni = unicode_sweep(ctx, viol, R)
     ctx.log('unicode sweep done')
 
